@@ -84,6 +84,26 @@ def gen_c10(tier: str, rng: random.Random) -> Iterator[Dict[str, Any]]:
                         steps2 = [dict(s, cuts=seg) if (s["s"] == "ws" and seg) else s for s in ws_steps]
                         yield ws_session(carrier, 1, steps2, prog, "ws/c10/%s/%d/%s/%s/%s" % (carrier, si, deflate, pings, seg),
                                          cfg=cfg, deflate=deflate)
+    # what the application sends: empty, one unit and long payloads of both kinds, in several orders,
+    # with further messages behind them (an empty payload is a message like any other)
+    send_seqs = [
+        [(False, 0)], [(True, 0)],
+        [(False, 0), (True, 0), (False, 1), (True, 1)],
+        [(True, 0), (False, 0), (False, 5), (True, 3)],
+        [(False, 2), (False, 0), (True, 2), (True, 0), (False, 3)],
+        [(False, 70000), (False, 0), (True, 2)],
+    ]
+    for carrier in ("h1", "h2"):
+        for qi, sq in enumerate(send_seqs):
+            for deflate in (False, True):
+                sends, off = [], {}
+                for text, ln in sq:
+                    pid = 50 if text else 51
+                    sends.append({"type": "websocket.send", "pat": [pid, off.get(pid, 0), ln], "text": text})
+                    off[pid] = off.get(pid, 0) + ln
+                ws_steps = [{"s": "ws", "op": "text", "pid": 9, "len": 2, "frags": [2]}, {"s": "dt", "d": 0.05}]
+                yield ws_session(carrier, 1, ws_steps, echo_app(1, sends), "ws/c10/%s/app-sends/%d/%s" % (carrier, qi, deflate),
+                                 cfg={"websocket_max_message_size": 70000}, deflate=deflate)
     # large messages around a realistic limit, server->client large sends
     cfg2 = {"websocket_max_message_size": 70000}
     for carrier in ("h1", "h2"):
@@ -156,6 +176,13 @@ def gen_c11(tier: str, rng: random.Random) -> Iterator[Dict[str, Any]]:
             prog = decision_prog(decision) + [["recv_disc"]]
             yield ws_session("h2", 1, [{"s": "dt", "d": 0.05}], prog, "ws/c11/h2/%s/%s" % (wsver, decision),
                              subprotos=["chat"], hs_kw=dict(wsver=wsver))
+    # what the client offered x what the application picks: no offer at all, one, several
+    for carrier in ("h1", "h2"):
+        for oi, offer in enumerate((None, ["chat"], ["superchat", "chat"], ["Chat"])):
+            for decision in ("accept", "accept-sub", "accept-bad-sub"):
+                prog = decision_prog(decision) + [["recv_disc"]]
+                yield ws_session(carrier, 1, [{"s": "dt", "d": 0.05}], prog,
+                                 "ws/c11/%s/offer-%d/%s" % (carrier, oi, decision), subprotos=offer)
     # closing orders and disconnect codes
     for carrier in ("h1", "h2"):
         for order in ("client-1000", "client-1001-reason", "client-nocode", "app-first", "app-code-4000", "simultaneous",
